@@ -3,6 +3,8 @@ use crate::diagnostic_emitter::MosResult;
 use crossbeam_channel::{bounded, Receiver, Sender};
 use std::io::{BufRead, BufReader, Write};
 use std::net::{TcpListener, TcpStream};
+use std::sync::atomic::{AtomicBool, Ordering};
+use std::time::Duration;
 use std::{io, thread};
 
 pub struct DebugConnection {
@@ -11,19 +13,37 @@ pub struct DebugConnection {
 }
 
 impl DebugConnection {
-    pub fn tcp(address: &str) -> MosResult<(DebugConnection, DebugIoThreads)> {
+    /// Waits for a debugger to connect. Gives up, with `None`, once `shutdown` is set.
+    pub fn tcp(
+        address: &str,
+        shutdown: &AtomicBool,
+    ) -> MosResult<Option<(DebugConnection, DebugIoThreads)>> {
         let listener = TcpListener::bind(address)?;
-        let (stream, _) = listener.accept()?;
+        // A blocking 'accept' cannot be interrupted, so nobody could wait for this thread to end
+        listener.set_nonblocking(true)?;
+        let stream = loop {
+            match listener.accept() {
+                Ok((stream, _)) => break stream,
+                Err(e) if e.kind() == io::ErrorKind::WouldBlock => {
+                    if shutdown.load(Ordering::Relaxed) {
+                        return Ok(None);
+                    }
+                    thread::sleep(Duration::from_millis(50));
+                }
+                Err(e) => return Err(e.into()),
+            }
+        };
+        stream.set_nonblocking(false)?;
         let (reader_receiver, reader) = make_reader(stream.try_clone().unwrap());
         let (writer_sender, writer) = make_write(stream.try_clone().unwrap());
         let io_threads = DebugIoThreads { reader, writer };
-        Ok((
+        Ok(Some((
             DebugConnection {
                 sender: writer_sender,
                 receiver: reader_receiver,
             },
             io_threads,
-        ))
+        )))
     }
 }
 
